@@ -60,7 +60,11 @@ func (r *Reader) ReadEntry() (*Entry, error) {
 			return r.parseEntryData(record.data)
 
 		case RecordTypeFirst:
-			// Start of a fragmented entry
+			// Start of a fragmented entry. A record without payload passes the
+			// checksum (the CRC of nothing is 0), so damage can produce one
+			if len(record.data) == 0 {
+				return nil, fmt.Errorf("%w: empty first fragment", ErrCorruptRecord)
+			}
 			r.fragments = append(r.fragments, record.data)
 			r.currType = record.data[0] // Save the operation type
 
